@@ -398,3 +398,47 @@ func verifC15_busy_writer() {
 	c.CloseNow()
 	vObserve("c15busy", len(pongs))
 }
+
+// C15.unsolicited: a Pong nobody is waiting for (a heartbeat of the peer, a late answer to a Ping that timed out) is
+// ignored: the Ping and the message behind it are handled as usual and the connection stays open, also well after the
+// read that met the Pong has returned.
+func verifC15_unsolicited() {
+	client := vParam("client", 1) == 1
+	vInstallRand()
+	mk := func(f vFrame) vFrame {
+		f.masked = !client
+		if f.masked {
+			copy(f.key[:], vBytes("key", 4))
+		}
+		return f
+	}
+	pp := vBytes("pong", vChoose("pongLen", 3))
+	p := vBytes("ping", 1)
+	m := vBytes("m", 2)
+	wire := vEncodeFrame(mk(vFrame{fin: true, opcode: 10, payload: pp}))
+	wire = append(wire, vEncodeFrame(mk(vFrame{fin: true, opcode: 9, payload: p}))...)
+	wire = append(wire, vEncodeFrame(mk(vFrame{fin: true, opcode: 1, payload: m}))...)
+	t := vNewTransport(wire)
+	t.endMode = vEndBlock
+	c := vNewConn(t, client, nil, 32, 64)
+	ctx, cancel := context.WithTimeout(vBG, 30*time.Second)
+	defer cancel()
+	typ, got, err := c.Read(ctx)
+	vReach("C15.unsolicited.read")
+	vAssert(vAnd(err == nil, vAnd(typ == MessageText, vEqBytes(got, m))), "C15.unsolicited.message-behind-the-pong-delivered")
+	time.Sleep(10 * time.Second)
+	vAssert(vIsOpen(c), "C15.unsolicited.connection-stays-open")
+	frs, ok := vParseWritten(t.out)
+	vAssert(ok, "C15.unsolicited.wellformed")
+	n := 0
+	for _, f := range frs {
+		if f.opcode == 10 {
+			n++
+			vAssert(vEqBytes(f.payload, p), "C15.echo.pong-carries-the-pings-payload")
+		}
+		vAssert(f.opcode != 8, "C15.unsolicited.no-close-frame")
+	}
+	vAssert(n == 1, "C15.echo.ping-behind-the-pong-answered")
+	c.CloseNow()
+	vObserve("c15unsol", len(pp), err == nil)
+}
